@@ -35,6 +35,9 @@ var c06WLs = []c06WL{
 	{"port", []string{"good.test:8443"}},
 	{"anyport", []string{"good.test:*"}},
 	{"ipv6", []string{"[::1]", "127.0.0.1:8443"}},
+	// entries with an empty host part (a trailing comma, an unset template value, a bare ":*"): accepted at start-up; per the
+	// documentation an entry names a domain, so an entry without one admits nothing
+	{"emptyhost", []string{"good.test", "", ":*", ":8443"}},
 }
 
 // ---------------------------------------------------------------------------------------------------------
@@ -193,6 +196,7 @@ const (
 
 type c06Ctx struct {
 	WL    c06WL
+	Idx   int      // index in c06WLs
 	H     *vfProxy // htpasswd form login, plain state — lives in the long-lived world W0 (inotify instances are scarce)
 	A     *vfProxy // plain state
 	B     *vfProxy // reverse-proxy + base64 state
@@ -227,10 +231,24 @@ func c06CacheIDToken(w *vfWorld) {
 
 func (cx *c06Ctx) wlFlags() []string {
 	f := []string{"--insecure-oidc-skip-nonce=true"}
+	empty := false
+	for _, e := range cx.WL.Entries {
+		empty = empty || e == ""
+	}
+	if empty { // an empty entry only survives flag parsing inside a comma-separated list
+		return append(f, "--whitelist-domain="+strings.Join(cx.WL.Entries, ","))
+	}
 	for _, e := range cx.WL.Entries {
 		f = append(f, "--whitelist-domain="+e)
 	}
 	return f
+}
+
+func (cx *c06Ctx) checkWL(p *vfProxy) error {
+	if got, want := fmt.Sprintf("%q", p.Opts.WhitelistDomains), fmt.Sprintf("%q", cx.WL.Entries); got != want && !(len(p.Opts.WhitelistDomains) == 0 && len(cx.WL.Entries) == 0) {
+		return fmt.Errorf("instance has whitelist %s, wanted %s", got, want)
+	}
+	return nil
 }
 
 // c06NewCtx creates the long-lived htpasswd instance in w0; Rotate creates the login instances.
@@ -240,6 +258,14 @@ func c06NewCtx(w0 *vfWorld, wl c06WL) (*c06Ctx, error) {
 	var err error
 	if cx.H, err = w0.NewProxy(append(cx.wlFlags(), "--htpasswd-file="+ht)...); err != nil {
 		return nil, err
+	}
+	if err := cx.checkWL(cx.H); err != nil {
+		return nil, err
+	}
+	for i, w := range c06WLs {
+		if w.Kind == wl.Kind {
+			cx.Idx = i
+		}
 	}
 	var ok2, ok3 bool
 	cx.BaseA, ok2 = c06ParseBase("http", c06HostA)
@@ -378,6 +404,9 @@ func (cx *c06Ctx) judge(a *c06Acc, ch, in string, base c06Base, p *vfProxy, resp
 	kept := false
 	bad := false
 	for _, o := range outs {
+		if o.Where == "hidden rd" {
+			a.count("hidden_rd_seen_"+ch, 1)
+		}
 		if (o.Where == "Location" || o.Where == "hidden rd") && o.Val != "/" && !strings.HasSuffix(o.Val, c06XFFallback) {
 			kept = true
 		}
@@ -554,8 +583,72 @@ func (cx *c06Ctx) editedCallback(a *c06Acc, ch, in string, p *vfProxy, host stri
 // ---------------------------------------------------------------------------------------------------------
 // the channels
 
-var c06CheapChannels = []string{"so-rd", "so-xarr", "form-rd", "form-fail", "page-signin", "page-error", "page-403", "xf-so", "xf-so-rd"}
-var c06LoginChannels = []string{"start-rd", "start-xarr", "start-rd-b64", "xf-start", "cb-state", "cb-state-b64", "path-login", "signin-skip"}
+var c06CheapChannels = []string{"so-rd", "so-xarr", "form-rd", "form-fail", "page-signin", "page-error", "page-403", "xf-so", "xf-so-rd",
+	"cbfail-error", "cbfail-error-b64", "cbfail-nocookie", "cbfail-nocookie-b64", "cbfail-badcookie", "cbfail-badcookie-b64"}
+var c06LoginChannels = []string{"start-rd", "start-xarr", "start-rd-b64", "xf-start", "cb-state", "cb-state-b64", "path-login", "signin-skip",
+	"cbfail-redeem", "cbfail-redeem-b64", "cbfail-nonce", "cbfail-nonce-b64"}
+
+// The cbfail-* channels are the FAILED callbacks: /oauth2/callback carrying a state "<nonce>:<string>" (plain on A, base64 on
+// B) that ends in the proxy's own error page — provider error, no CSRF cookie, undecodable CSRF cookie, valid cookie with a
+// code the provider rejects, valid cookie and code with a state nonce that does not match. A string goes through the plain
+// or the base64 variant of each mode, alternating with the whitelist configuration. On these pages nothing of the state may
+// show up as a link target: the state's redirect is only validated on the success path.
+func c06IsCBFail(ch string) bool { return strings.HasPrefix(ch, "cbfail-") }
+
+func (cx *c06Ctx) cbFail(a *c06Acc, ch, in string, st *c06State) (bool, bool) {
+	encoded := strings.HasSuffix(ch, "-b64")
+	if ((c06Hash(in)>>9)+uint64(cx.Idx))&1 == 1 != encoded {
+		return false, false
+	}
+	p, started := cx.A, &st.sA
+	if encoded {
+		p, started = cx.B, &st.sB
+	}
+	mode := strings.TrimSuffix(strings.TrimPrefix(ch, "cbfail-"), "-b64")
+	nonce, code, cookie := "Zm9yZ2VkLW5vbmNl", "bogus-code", ""
+	if mode == "redeem" || mode == "nonce" {
+		if *started == nil {
+			s, err := cx.startLogin(p, c06HostA, encoded)
+			if err != nil {
+				a.count("rig_start_login_failed", 1)
+				return false, false
+			}
+			*started = s
+		}
+		cookie = (*started).Cookie
+		if mode == "redeem" {
+			nonce = (*started).Nonce
+		} else {
+			c, _, err := p.W.IdP.Authorize((*started).LoginURL, vfStdIdentity)
+			if err != nil {
+				a.count("idp_authorize_errors", 1)
+				return false, false
+			}
+			code = c
+		}
+	}
+	state := nonce + ":" + in
+	if encoded {
+		state = base64.RawURLEncoding.EncodeToString([]byte(state))
+	}
+	target := p.Opts.ProxyPrefix + "/callback?code=" + vfQueryEscape(code) + "&state=" + vfQueryEscape(state)
+	switch mode {
+	case "error":
+		target = p.Opts.ProxyPrefix + "/callback?error=access_denied&state=" + vfQueryEscape(state)
+	case "badcookie":
+		cookie = "_oauth2_proxy_csrf=bm90LWEtY29va2ll|1700000000|c2lnbmF0dXJl"
+	}
+	req := vfGET(target).WithHost(c06HostA)
+	if cookie != "" {
+		req.H("Cookie", cookie)
+	}
+	resp := p.Do(req)
+	a.count(fmt.Sprintf("status_%s_%d", ch, resp.Code), 1)
+	if resp.Code == 302 && resp.Location() != "" && !c06IsStart(resp) {
+		a.count("cbfail_unexpected_success_"+ch, 1) // the failure mode did not fail: judged all the same
+	}
+	return cx.judge(a, ch, in, cx.BaseA, p, resp, req), true
+}
 
 func c06ValidTarget(s string) bool {
 	if s == "" || s[0] != '/' {
@@ -621,6 +714,9 @@ func (cx *c06Ctx) drive(a *c06Acc, ch, in string, st *c06State) (bool, bool) {
 		}
 		cx.finishLogin(a, ch, in, base, p, req.Host, req, resp, hdr...)
 		return false, true
+	}
+	if c06IsCBFail(ch) {
+		return cx.cbFail(a, ch, in, st)
 	}
 	switch ch {
 	case "so-xarr", "start-xarr", "xf-so", "xf-start":
